@@ -278,7 +278,7 @@ def make_mesh(rng, cls, d, kind):
     if kind == "grid":
         shp = (int(rng.integers(2, 6)), int(rng.integers(2, 6)))
         if rng.random() < 0.12:
-            shp = [(16, 16), (8, 32), (32, 8), (64, 4), (4, 64), (15, 17), (17, 15)][rng.integers(0, 7)]     # a few hundred vertices (index types have their limits at 256)
+            shp = [(16, 16), (8, 32), (32, 8), (64, 4), (4, 64), (15, 17), (17, 15), (16, 16), (16, 16)][rng.integers(0, 9)]     # a few hundred vertices (index types have their limits at 256)
         base = ms.TriMesh.init_2d_grid(shp, spacing=float(rng.uniform(0.5, 3)) if rng.random() < 0.5 else None)
         pts, tl = base.points.copy(), base.trilist.copy()        # the triangle list exactly as the grid constructor hands it out
         if d == 3:
@@ -356,6 +356,8 @@ def make_mesh(rng, cls, d, kind):
     n = len(pts)
     if rng.random() < 0.3 and kind != "grid":
         tl = tl.astype(np.uint32)
+    elif kind == "grid" and len(pts) in (256, 255) and rng.random() < 0.7:
+        tl = tl.astype(np.uint8)              # stored in the narrowest type that holds the indices (0 .. 255)
     r_ = rng.random()
     if r_ < 0.2 and kind not in ("degenerate", "detail_patch"):
         pts = pts.astype(np.float32)          # meshes loaded from files are often single precision
